@@ -1764,6 +1764,7 @@ func (query *Query) exec() (result any, err error) {
 		}
 		return rs[0], nil
 	}
+	verifStage(query, "from", query.from)
 	slice := make([]any, 0)
 	for _, current := range query.from {
 		switch current := current.(type) {
@@ -1790,10 +1791,12 @@ func (query *Query) exec() (result any, err error) {
 			}
 		}
 	}
+	verifStage(query, "where", slice)
 	rs, err := ExecGroupBy(query, slice)
 	if err != nil {
 		return nil, err
 	}
+	verifStage(query, "group", rs)
 	//query.processed = rs
 	offset := 0
 	if query.offsetDefinition != -1 {
@@ -1803,14 +1806,17 @@ func (query *Query) exec() (result any, err error) {
 	if err != nil {
 		return nil, err
 	}
+	verifStage(query, "select", rs)
 	rs, err = ExecDistinct(query, rs)
 	if err != nil {
 		return nil, err
 	}
+	verifStage(query, "distinct", rs)
 	rs, err = ExecOrderBy(query, rs)
 	if err != nil {
 		return nil, err
 	}
+	verifStage(query, "order", rs)
 	limit := len(rs)
 	if query.limitDefinition != -1 {
 		limit = query.limitDefinition
@@ -1824,6 +1830,7 @@ func (query *Query) exec() (result any, err error) {
 	}
 	rs = rs[offset:][:limit]
 FINALIZE:
+	verifStage(query, "window", rs)
 	if query.options.completed != nil {
 		query.options.completed()
 	}
